@@ -477,8 +477,9 @@ class Classifier:
     """Decides whether a failing program is an instance of a known finding, by re-running
     VARIANTS of it on the real compiler (semantic signature), never by the source's provenance."""
 
-    def __init__(self, oracle):
+    def __init__(self, oracle, nilable=()):
         self.o = oracle
+        self.nilable = set(nilable)      # builtins whose registered result spec admits nil
 
     def outcomes(self, srcs, mods):
         recs = self.o.run_sources([dict(src=s, mods=mods) for s in srcs])
@@ -801,6 +802,12 @@ class Classifier:
     # the probe program `<prefix up to the binding>, [x]` must itself be judged `reject`
     # (value [[]] not in [(T)]).
     def sig_f27(self, src, mods, failure):
+        # syntactic arm (binders inside functions that only a particular argument drives to nil):
+        # a bare in-chain binder directly after a builtin whose REGISTERED result is `T | []`
+        if failure.get("kind") == "vm-type-failure" and self.nilable:
+            rx = r"__(%s)__\s*(?:\n\s*~>\s*)?=[a-z][A-Za-z0-9_]*(?![A-Za-z0-9_(\[*])" % "|".join(sorted(self.nilable))
+            if re.search(rx, strip_strings(src)):
+                return True
         steps = split_steps(src)
         probes = []
         for k, st in enumerate(steps):
@@ -1095,7 +1102,8 @@ def run(ctx):
                        "what": "registered pure builtin %s has no row in Typed.builtin_sigs" % n}, no_input=True)
 
     oracle = Oracle(ctx, typed, drv)
-    clf = Classifier(oracle)
+    nilable = [n for n, (p_, r_) in real_sigs.items() if isinstance(r_, list) and r_[0] == "union" and ["tuple", "-"] in r_[1:]]
+    clf = Classifier(oracle, nilable)
     if getattr(ctx, "replay_path", None):
         # ./check C01 --replay <file>: re-judge the recorded source on the current tree
         import json
